@@ -208,6 +208,9 @@ type Interp struct {
 	atomicAccess bool
 	inPure      bool
 	pureTabs    map[string][]*Term
+	pureTabsAgg map[string]*Agg
+	crcTop      bool
+	crcTerms    map[*Term]bool
 }
 
 type Config struct {
@@ -322,6 +325,16 @@ func (in *Interp) callValue(th *Thread, fv FuncV, args []Value, retReg int32, is
 			return
 		}
 	}
+	if len(args) == 1 && strings.HasPrefix(fn.Name(), "sov") && fn.Signature.Results().Len() == 1 {
+		// gogo-protobuf varint size helpers (sovRaft, sovRecord, ...): (bits.Len64(x|1)+6)/7, i.e. the
+		// number of 7-bit groups; forked over the feasible size classes so that buffer offsets stay concrete
+		if x, ok := args[0].(*Term); ok && x.Sort.K == SBV && x.Sort.W == 64 {
+			if r, ok := in.varintSize(x); ok {
+				deliver(r)
+				return
+			}
+		}
+	}
 	if ic, ok := intrinsics[name]; ok {
 		res, handled := ic(in, th, fn, args)
 		if handled {
@@ -347,7 +360,33 @@ func (in *Interp) callValue(th *Thread, fv FuncV, args []Value, retReg int32, is
 			return
 		}
 	}
+	if fn.Pkg != nil && opaquePkg(fn.Pkg.Pkg.Path()) {
+		n := fn.Name()
+		if strings.HasPrefix(n, "Fatal") || strings.HasPrefix(n, "Panic") || strings.HasPrefix(n, "DPanic") {
+			if strings.HasPrefix(n, "Fatal") {
+				panic(pathEnd{Verdict{Kind: "PANIC", Label: "process exit via " + name, Func: userFrame(th.top), Pos: in.posOf(th.top)}})
+			}
+			in.goPanicVal(th, "log.Panic", Iface{T: types.Typ[types.String], V: Str{S: name}})
+			return
+		}
+		deliver(in.opaqueResult(fn.Signature, "result of "+name))
+		return
+	}
+	if caller != nil && fn.Pkg != nil && !in.P.InitOK[fn.Pkg.Pkg.Path()] && isInitFunc(caller.fn) {
+		// an init-time call that leaves the modelled package set (metric constructors, protobuf
+		// registration, loggers, RNG seeding): the result is an opaque handle
+		deliver(in.opaqueResult(fn.Signature, "init-time result of "+name))
+		return
+	}
 	in.pushFrame(th, fn, args, fv.Env, retReg, isDefer)
+}
+
+func isInitFunc(fn *ssa.Function) bool {
+	if fn.Pkg == nil {
+		return false
+	}
+	n := fn.Name()
+	return n == "init" || strings.HasPrefix(n, "init#")
 }
 
 func (in *Interp) prepareCall(fr *Frame, c *ssa.CallCommon) (FuncV, []Value) {
@@ -797,10 +836,10 @@ func (in *Interp) makeSlice(fr *Frame, ins *ssa.MakeSlice) {
 	if n > in.allocCap {
 		panic(pathEnd{Verdict{Kind: "ALLOC", Label: "allocation size exceeds cap", Func: fr.fn.String(), Pos: in.posOf(fr)}})
 	}
-	if n > engineCap {
+	et := ins.Type().Underlying().(*types.Slice).Elem()
+	if n > engineCap && !(isScalarType(et) && n <= 1<<21) {
 		panic(pathEnd{Verdict{Kind: "ASSUME", Label: "allocation larger than the engine materialises (outside bound)"}})
 	}
-	et := ins.Type().Underlying().(*types.Slice).Elem()
 	arr := &Agg{V: make([]Value, n)}
 	if isScalarType(et) {
 		z := in.zero(et)
